@@ -357,6 +357,20 @@ func caseTerm(c *GCase) string {
 
 // ---------------------------------------------------------------- test entry points
 
+func hasPerformDataOver(c GCase, limit int) bool {
+	for _, o := range c.Obs {
+		for _, r := range o.Perf {
+			if r.PD == "-" {
+				continue
+			}
+			if b, err := pdBytes(r.PD); err == nil && len(b) > limit {
+				return true
+			}
+		}
+	}
+	return false
+}
+
 func runAll(t *testing.T, prop, base string, results [][2]string) {
 	dir := OutDir(t, prop)
 	var cases []GCase
@@ -369,6 +383,17 @@ func runAll(t *testing.T, prop, base string, results [][2]string) {
 		n := EnvInt("VERIF_N", 120)
 		for i := 0; i < n; i++ {
 			cases = append(cases, randomCase(r))
+		}
+		if prop == "C03" {
+			// C03 speaks about a well-behaved pipeline: perform data of at most 10,000 bytes (its size clauses are false
+			// beyond that on any tree); rounds with larger payloads belong to C01 / C02 / C05 only
+			kept := cases[:0]
+			for _, c := range cases {
+				if !hasPerformDataOver(c, 10000) {
+					kept = append(kept, c)
+				}
+			}
+			cases = kept
 		}
 	}
 	synctest.Test(t, func(t *testing.T) {
